@@ -90,10 +90,25 @@ func Decide(t fataler, s *graph.Scenario, obsOrders []int, tag string) {
 		}
 		in.Extra = append(in.Extra, &graph.WrapPP{Plan: plan, IDOf: idOf})
 	}
+	// a before-initialization callback vetoes one eager component: (nil, error). Nothing is initialised "around" it.
+	veto := -1
+	if strings.Contains(tag, "+veto") {
+		for i, n := range s.Nodes {
+			if n.Variant != 'L' && n.Variant != 'Y' && !readyMade[i] {
+				nm, _ := model.NameOf(in.Comps[i])
+				in.Extra = append(in.Extra, &graph.ObsPP{Tag: "veto", Log: in.Log, IDOf: idOf, FailBefore: nm})
+				veto = i
+				break
+			}
+		}
+	}
 	in.Run()
 	desc := fmt.Sprintf("%s %s obs=%v", tag, s.Shape(), obsOrders)
 	if in.Out.Panic != nil {
 		t.Fatalf("C05: start-up panicked: %v\n%s", in.Out.Panic, desc)
+	}
+	if veto >= 0 && in.Out.Err == nil && in.Behs[veto].InitCalls == 0 {
+		t.Fatalf("C05: a before-initialization callback reported an error for eager component %d; the start succeeded all the same and the component was published without ever being initialised (its dependants' Init ran against it)\n%s", veto, desc)
 	}
 	if in.Out.Err != nil {
 		kit.Rec.Case(desc, false, "start-failed")
@@ -435,6 +450,9 @@ func TestLifecycle(t *testing.T) {
 		// the model's "must be populated" set does not apply)
 		if !strings.Contains(tag, "+prefill") && rapid.IntRange(0, 3).Draw(t, "readymade") == 0 {
 			tag += "+readymade"
+		}
+		if rapid.IntRange(0, 7).Draw(t, "veto") == 0 {
+			tag += "+veto"
 		}
 		Decide(t, s, genObs(t), tag)
 	})
